@@ -106,6 +106,9 @@ def handlers : List (String × Handler) := [
       | _ => pure none
     let r := BSE.Index.filterEntries md (optStr j "substr") (optStr j "family") (optStr j "role") els
     pure (obj [("ok", Json.arr (r.map fun e => Json.arr #[.str e.key, toJson (e.versions.map (·.1))]).toArray)])),
+  ("enumerate", fun j => do
+    let md ← (← getArr j "entries").mapM decodeEntry
+    pure (obj [("families", toJson (BSE.Index.families md)), ("names", toJson (BSE.Index.allNames md))])),
   ("select", fun j => do
     let keys ← getStrList j "keys"
     let sel ← getStrList j "sel"
